@@ -25,7 +25,7 @@ func (fi *FnInfo) asMapOver(p *Prog, v ssa.Value) *MapOver {
 			loop = l
 		}
 	}
-	if loop == nil || loop.Idx == nil || len(phi.Edges) != 2 {
+	if loop == nil || loop.Idx == nil || len(phi.Edges) < 2 {
 		return nil
 	}
 	mo := &MapOver{Loop: loop, Phi: phi}
